@@ -207,6 +207,10 @@ impl World {
         if let Some(alt) = a.get("alt") {
             b = b.alternate_server_name(*alt);
         }
+        // outlayer=1: the user supplies an outbound request layer of their own (one that changes nothing)
+        if a.get("outlayer") == Some(&"1") {
+            b = b.outbound_request_layer(tower::layer::util::Identity::new());
+        }
         match b.start(svc) {
             Ok(net) => {
                 let peer_id = net.peer_id();
